@@ -70,6 +70,7 @@ def load(symbolic):
     g.G2OParameterSE3Offset = g.params_mod.G2OParameterSE3Offset
     g.OptimizationResult = g.graph_mod.OptimizationResult
     g.symbolic = symbolic
+    g._saved = {name: {a: getattr(mod, a) for a in ("lil_matrix", "spsolve", "time") if hasattr(mod, a)} for name, mod in mods.items()}
     if symbolic:
         from .npproxy import NP
         from .scalars import TWO_PI
@@ -90,3 +91,21 @@ def source_hashes():
                 p = os.path.join(root, f)
                 out[os.path.relpath(p, REPO)] = hashlib.sha256(open(p, "rb").read()).hexdigest()[:16]
     return dict(sorted(out.items()))
+
+
+def reset_stubs(g):
+    """undo every environment stub a previous case bound into the package's modules (cases share a worker process)"""
+    for name, mod in g.mods.items():
+        for a in ("float", "int", "open", "print"):
+            if a in mod.__dict__:
+                del mod.__dict__[a]
+        for a, v in g._saved.get(name, {}).items():
+            setattr(mod, a, v)
+    if g.symbolic:
+        from .scalars import CTX, TWO_PI
+
+        CTX.fp_mode = False
+        if hasattr(g.util, "TWO_PI"):
+            g.util.TWO_PI = TWO_PI
+    for attr in [a for a in vars(g) if a.startswith("_c") or a.startswith("_io")]:
+        pass
